@@ -435,6 +435,38 @@ func C11(p *ir.Program, r *report.R) {
 	// used to panic inside the consensus routine).
 	typeChosenByInputFits(c)
 
+	// ---- decode targets are fresh -----------------------------------------------------------------------------
+	// The decoder REUSES a non-nil pointer target and assigns exported fields only: memoised fields of the
+	// old value (block hash) survive. The one long-lived decode target of the module is cs.ProposalBlock
+	// (addProposalBlockPart decodes the completed part set into it): it is nil whenever a new part set is
+	// installed, so every decode starts from a fresh value.
+	proposalBlockAndPartsChangeTogether(c)
+
+	// ---- time.Time: the decoder accepts exactly what the encoder emits -------------------------------------
+	// The encoder writes (Unix seconds, Nanosecond()) and Nanosecond() ranges over [0, 999999999]. The
+	// decoder rebuilds the time only inside that range and nothing narrower: a bound tighter by one
+	// rejects the node's own votes and blocks stamped at such an instant.
+	{
+		n := 0
+		{
+			for _, call := range ir.CallsDeep(p.Func("libs/ser", "makeStructDecoder"), "time.Unix") {
+				n++
+				nsec := Arg(call, 1)
+				var about []string
+				for _, a := range ir.FactsAt(call) {
+					if strings.Contains(a.Atom, nsec) {
+						about = append(about, a.Atom)
+					}
+				}
+				sort.Strings(about)
+				want := []string{"le(" + nsec + ",999999999)", "le(0," + nsec + ")"}
+				sort.Strings(want)
+				r.Check("K6", "ser.makeStructDecoder/time/nanosecond-range-is-the-encoders", p.InstrPos(call), strings.Join(about, " ") == strings.Join(want, " "), "time.Unix is reached exactly under 0 <= nsec <= 999999999: "+strings.Join(about, " "))
+			}
+		}
+		r.Check("K6", "ser.makeStructDecoder/time/sites", "-", n == 1, fmt.Sprintf("%d time.Unix call in the struct decoder", n))
+	}
+
 	// ---- one value per byte string -----------------------------------------------------------
 	// The slice decoders accept exactly one value: success is returned only when the reader is
 	// exhausted (trailing bytes would make two different inputs decode to the same value).
